@@ -497,6 +497,31 @@ def alpha_equal(new_text, base_text):
     return True
 
 
+def macro_alpha_equal(new_text, base_text):
+    """the same for a single-arm `macro_rules! name { (PARAMS) => { BODY } }`: everything outside BODY identical token for token, BODY
+    alpha-equivalent (read as the body of a function without parameters; `$name` fragments are not locals)"""
+    try:
+        def split(text):
+            toks = lex(text)
+            k = next(i for i in range(len(toks) - 1) if toks[i].text == "=" and toks[i + 1].text == ">" and toks[i + 1].start == toks[i].end)
+            if toks[k + 2].text != "{":
+                raise NotComparable("macro arm without a block")
+            c = match_close(toks, k + 2)
+            head = [(t.kind, t.text) for t in toks[:k + 2]] + [(t.kind, t.text) for t in toks[c + 1:]]
+            # one arm only
+            if any(t.text == "=" and toks[i + 1].text == ">" and toks[i + 1].start == t.end and toks[i - 1].text == ")"
+                   for i, t in enumerate(toks[c + 1:-1], c + 1)):
+                raise NotComparable("several arms")
+            return head, text[toks[k + 2].start:toks[c].end]
+        ha, ba = split(new_text)
+        hb, bb = split(base_text)
+        if ha != hb:
+            return False
+        return alpha_equal("fn m__() " + ba, "fn m__() " + bb)
+    except Exception:
+        return False
+
+
 if __name__ == "__main__":
     import sys
     print(alpha_equal(open(sys.argv[1]).read(), open(sys.argv[2]).read()))
